@@ -31,6 +31,7 @@ func init() {
 			{ID: "C11.8", Desc: "the status is applied after every other header write of the exchange", Run: ruleC11_8, MinSites: 3},
 			{ID: "C11.9", Desc: "a missing or invalid Date is repaired for every origin response, with the UTC time (the Age emitted later is computed from it)", Run: func(c *Ctx) { ruleDateRepair(c, "C11.9") }, MinSites: 1},
 			{ID: "C11.10", Desc: "the Age value is the first member of the field", Run: func(c *Ctx) { ruleAgeFirstMember(c, "C11.10") }, MinSites: 1},
+			{ID: "C11.11", Desc: "an Age too large to represent saturates instead of being dropped", Run: func(c *Ctx) { ruleSaturation(c, "C11.11") }, MinSites: 2},
 		},
 	})
 }
